@@ -296,6 +296,35 @@ class C09(Check):
                          "right": CNConfigType.RIGHT_FUSION, "custom": CNConfigType.CUSTOM}[stc if stc == "1" else stc[0]]
             if kd.get(a.cn_config) != want_kind:
                 v.append(("catalogue/structure-kind", f"{name}: configuration {a.cn_config} is {kd.get(a.cn_config)}, database says {stc}"))
+            elif a.cn_config in g.cn_configs:
+                # the copy-number vector of the configuration, from the documented meaning of the notation
+                # (docs/database.rst): "brk-" = pseudogene regions before brk + gene regions from brk on; "brk+" = gene
+                # regions before brk + pseudogene regions from brk on, next to a whole pseudogene copy; regions ordered
+                # along the gene (by their own coordinates and the strand)
+                order = sorted(g.regions[0], key=lambda r_: (g.regions[0][r_].start, g.regions[0][r_].end), reverse=g.strand < 0)
+                rk = {r_: i for i, r_ in enumerate(order)}
+                has_p = len(g.regions) > 1
+                kind_ = stc if stc == "1" else stc[0]
+                want_cn = None
+                if kind_ == "1":
+                    want_cn = [{r_: 1 for r_ in order}] + ([{r_: 1 for r_ in order}] if has_p else [])
+                elif kind_ == "del":
+                    want_cn = [{r_: 0 for r_ in order}] + ([{r_: 1 for r_ in order}] if has_p else [])
+                elif kind_ == "custom":
+                    want_cn = [{r_: int(r_ not in stc[1]) for r_ in order}] + ([{r_: 1 for r_ in order}] if has_p else [])
+                elif kind_ == "left" and stc[1] in rk and has_p:
+                    want_cn = [{r_: int(rk[r_] >= rk[stc[1]]) for r_ in order}, {r_: int(rk[r_] < rk[stc[1]]) for r_ in order}]
+                elif kind_ == "right" and stc[1] in rk and has_p:
+                    want_cn = [{r_: int(rk[r_] < rk[stc[1]]) for r_ in order}, {r_: 1 + int(rk[r_] >= rk[stc[1]]) for r_ in order}]
+                if want_cn is not None:
+                    got_cn = [dict(x) for x in g.cn_configs[a.cn_config].cn]
+                    for gi_, x in enumerate(want_cn):       # zero-length regions carry no copies
+                        for r_ in x:
+                            if r_ in g.regions[gi_] and g.regions[gi_][r_].end - g.regions[gi_][r_].start <= 0:
+                                x[r_] = 0
+                    if got_cn != want_cn:
+                        bad = [(gi_, r_, got_cn[gi_].get(r_), want_cn[gi_][r_]) for gi_ in range(min(len(got_cn), len(want_cn))) for r_ in want_cn[gi_] if got_cn[gi_].get(r_) != want_cn[gi_][r_]]
+                        v.append(("catalogue/structure-copy-numbers", f"{name} ({stc}): configuration {a.cn_config} differs from the documented meaning at (gene index, region, got, want) {bad[:4]}"))
         # partition equality for non-partial majors
         want_part = set()
         for (stc, core), names in groups.items():
